@@ -314,6 +314,50 @@ pub fn generate_c11(seed: u64, n: usize, emit: &mut dyn FnMut(String)) {
 	}
 }
 
+/// `skip <backend> <schema> <hint> <bytes>`: the hinted read and the full (dynamic) read
+pub fn run_skip(line: &str) -> Result<String, String> {
+	let mut r = R::new(line);
+	let _ = r.tok()?;
+	let backend = read_backend(&mut r)?;
+	let raw = r.schema()?;
+	let hint = r.hint()?;
+	let bytes = r.xb()?;
+	let schema = match build::to_schema_mut(&raw).freeze() {
+		Ok(s) => s,
+		Err(_) => return Ok("freeze-err".into()),
+	};
+	let a = run_one(&backend, 1_000_000_000, 64, &schema, &hint, &bytes);
+	let b = run_one(&backend, 1_000_000_000, 64, &schema, &Hint::Any, &bytes);
+	Ok(format!("{a} | {b}"))
+}
+
+pub fn generate_skip(seed: u64, n: usize, emit: &mut dyn FnMut(String)) {
+	let mut rng = rng_from(seed, "skip");
+	for i in 0..n {
+		let max_nodes = if i % 10 == 0 { 24 } else { 12 };
+		let mut sg = SchemaGen::new(&mut rng, max_nodes, false);
+		sg.decimal_limits = true;
+		let schema = sg.gen_root();
+		for _ in 0..3 {
+			let mut bytes = vec![];
+			DatumGen { rng: &mut rng, schema: &schema, fancy_layout: true, nonminimal: 0.05 }.gen(0, 0, &mut bytes);
+			// a sentinel after the datum: following data must stay untouched
+			bytes.extend_from_slice(&[0xAA, 0x55, 0x01]);
+			let hint = skip_hint(&mut rng, &schema, 0, 0);
+			let backend = if rng.gen_bool(0.5) { Backend::Slice } else { random_backend(&mut rng, bytes.len()) };
+			let backend = match backend {
+				Backend::Reader { last, sched, .. } => Backend::Reader { last, sched, max_alloc: 512 * 1024 * 1024 },
+				b => b,
+			};
+			let mut w = W::default();
+			w.t("skip");
+			write_backend(&mut w, &backend);
+			w.schema(&schema).hint(&hint).xb(&bytes);
+			emit(w.s);
+		}
+	}
+}
+
 /// `dealloc <maxseq> <depth> <schema> <bytes>`: slice input, a target that stores nothing
 /// (`IgnoredAny`), allocations counted around the call
 pub fn run_alloc(line: &str) -> Result<String, String> {
